@@ -888,13 +888,15 @@ def directed(ctx):
 
 
 def chunk_cases(ctx):
-    """(shard, case) pairs; the quick tier has exactly one, in shard 0."""
+    """(shard, case) pairs; the quick tier has two (one chunk + a tail, exactly one chunk), in shards 0 and 1."""
     big = CHUNK + 8 * 1234 - 3
-    out = [(0, {'kind': 'chunk', 'nbits': big, 'source': 'memory', 'obs': ['hash', 'tobytes', 'fail']})]
+    out = [(0, {'kind': 'chunk', 'nbits': big, 'source': 'memory', 'obs': ['hash', 'tobytes', 'fail']}),
+           # exactly one chunk: the regime where a "remainder" write has nothing left (quick tier too, in another shard)
+           (1, {'kind': 'chunk', 'nbits': CHUNK, 'source': 'memory', 'obs': ['hash', 'fail']})]
     if not ctx.quick:
         out += [
-            (1, {'kind': 'chunk', 'nbits': CHUNK, 'source': 'memory', 'obs': ['hash', 'fail']}),
             (2, {'kind': 'chunk', 'nbits': CHUNK - 1, 'source': 'memory', 'obs': ['hash', 'fail']}),
+            (8, {'kind': 'chunk', 'nbits': 2 * CHUNK, 'source': 'memory', 'obs': ['hash']}),
             (3, {'kind': 'chunk', 'nbits': CHUNK + 8, 'source': 'memory', 'obs': ['hash', 'fail']}),
             (4, {'kind': 'chunk', 'nbits': big, 'source': 'file-limited', 'tail': 77, 'obs': ['hash', 'tobytes', 'fail']}),
             (5, {'kind': 'chunk', 'nbits': CHUNK + 8 * 1234, 'source': 'file', 'cls': 'ConstBitStream', 'obs': ['hash', 'fail']}),
